@@ -316,17 +316,17 @@ func init() {
 					r.Bad(qk, "queue bucket write", "no store.Set(GetRedelegationQueueKey(...))", nil, e.Pos(qf.Pos()))
 				} else {
 					// the bucket variable is identified by its role: it is what is marshalled into the value written
-					var bucketAlloc *ssa.Alloc
+					var bucketAllocs map[*ssa.Alloc]bool
 					if args := setq.Common().Args; len(args) > 0 {
 						if mc, ok := args[len(args)-1].(*ssa.Call); ok && len(mc.Common().Args) > 0 {
-							bucketAlloc, _ = rootAlloc(unwrapIface(mc.Common().Args[len(mc.Common().Args)-1]))
+							bucketAllocs = rootAllocSet(unwrapIface(mc.Common().Args[len(mc.Common().Args)-1]))
 						}
 					}
 					var puts []ssa.Instruction
 					for _, b := range qf.Blocks {
 						for _, in := range b.Instrs {
 							if st, ok := in.(*ssa.Store); ok {
-								if al, ok := rootAlloc(st.Addr); ok && al == bucketAlloc {
+								if al, ok := rootAlloc(st.Addr); ok && bucketAllocs[al] {
 									v := qa.Term(st.Val)
 									for _, a := range lits {
 										if v.Contains(qa.Term(a)) {
